@@ -89,10 +89,6 @@ func init() {
 					"ok": r.Exit == 0 && len(r.Stdout) > 0 && !r.Panic, "out": out, "stdoutLen": len(r.Stdout), "stderrLen": len(r.Stderr)}}
 			}
 			args := []string{"info", "key", "conv", "--key", cs(k, "key"), "-c", cs(k, "chain")}
-			if h := len(cs(k, "chain"))*7 + len(cs(k, "key")); h%8 == 5 && cs(k, "chain") != "" {
-				// the flag given twice: the last mention is the chain
-				args = []string{"info", "key", "conv", "--key", cs(k, "key"), "-c", "spr", "-c", cs(k, "chain")}
-			}
 			r := c.crd(args, nil)
 			chain := []string{}
 			for _, x := range cs(k, "chain") {
